@@ -384,6 +384,8 @@ func (b *Base) buildPointers() {
 	}
 }
 
+var cycleProne = map[string]bool{"SNOD": true, "msg:continuation": true, "msg:link": true, "TREE": true, "OHDR": true, "OCHK": true, "msg:symtab": true}
+
 // genRedirect re-targets a pointer field: to the structure that holds it (self reference), to another structure of the
 // same kind as the holder (sibling / ancestor), or to any other structure. For B-tree nodes the node level is raised as
 // well half of the time, so that a redirected child is followed as a node.
@@ -395,6 +397,12 @@ func genRedirect(t *rapid.T, b *Base) []Mut {
 	}
 	p := ps[uni(t, "ptr", 0, len(ps)-1)]
 	owner := b.Structs[p.Owner]
+	// Pointers whose redirection is known to send the pinned reader into a cycle (open findings KF-C07-18/19/22: SNOD entries,
+	// continuation messages, link messages, B-tree children) are taken only one time in eight; each such case costs a worker.
+	for try := 0; try < 4 && cycleProne[owner.Kind] && uni(t, "prone", 0, 7) != 0; try++ {
+		p = ps[uni(t, "ptr2", 0, len(ps)-1)]
+		owner = b.Structs[p.Owner]
+	}
 	var v uint64
 	vk := "redirect-self"
 	switch uni(t, "rk", 0, 3) {
@@ -450,7 +458,7 @@ func (g *genEnv) gen(t *rapid.T) Case {
 	near := -1
 	for i := 0; i < nm; i++ {
 		mk := uni(t, "mk", 0, 99)
-		if mk < 12 {
+		if mk < 8 {
 			c.Muts = append(c.Muts, genRedirect(t, b)...)
 		} else if mk < 68 {
 			m, idx := genField(t, b, near)
